@@ -381,7 +381,15 @@ def replay_playback(h, prop, res):
 		f"// Replay: paste into the module of the harness in an overlay copy and run\n"
 		f"//   cargo kani playback -Z concrete-playback -p {h.crate} -- <test name>\n"
 		f"// failed checks:\n" + "".join(f"//   {f['description']} @ {f['location']}\n" for f in res.failed) + body + "\n")
-	# run natively: append the test(s) to the harness' module file inside a private copy of the workspace
+	reproduced, detail = native_playback(h, body, rpath + ".native.log")
+	return reproduced, rpath, detail
+
+
+def native_playback(h, body, native_log):
+	"""Run generated concrete-playback tests natively (real functions, no stubs) in a private copy of the overlay workspace.
+	Returns (reproduced: bool|None, detail)."""
+	rpath = None
+	# append the test(s) to the harness' module file inside a private copy of the workspace
 	rws = os.path.join(WORK, f"replay-ws-{os.getpid()}-{h.name}")
 	try:
 		sh(["rsync", "-a", "--delete", WS + "/", rws + "/"])
@@ -395,7 +403,7 @@ def replay_playback(h, prop, res):
 				_write(fp, re.sub(r"#\[cfg\(test\)\]\s*\nmod tests", "#[cfg(any())]\nmod tests", _read(fp)))
 		modfile = harness_source_file(h, rws)
 		if not modfile:
-			return None, rpath, "harness source file not found for playback"
+			return None, "harness source file not found for playback"
 		src = _read(modfile)
 		names = re.findall(r"fn (kani_concrete_playback_\w+)", body)
 		if h.path.endswith("kani_harness"):
@@ -408,7 +416,8 @@ def replay_playback(h, prop, res):
 		out = []
 		reproduced = False
 		for profile in ("dev",):
-			cmd = ["cargo", "kani", "playback", "-Z", "concrete-playback", "-p", h.crate]
+			# --lib: unit tests only (the crates' doctests need dev-dependencies the overlay copy does not build and would fail)
+			cmd = ["cargo", "kani", "playback", "-Z", "concrete-playback", "-p", h.crate, "--lib"]
 			if profile == "release":
 				cmd += ["--release"]
 			# one generated test per cover / failed check: run them all, any native failure reproduces the counterexample
@@ -416,16 +425,16 @@ def replay_playback(h, prop, res):
 			env = dict(ENV)
 			env["CARGO_TARGET_DIR"] = os.path.join(WORK, "target-playback")
 			r = subprocess.run(cmd, cwd=rws, env=env, stdout=subprocess.PIPE, stderr=subprocess.STDOUT, text=True, timeout=3600)
-			tail = r.stdout[-3000:]
+			tail = "\n".join(l for l in r.stdout.splitlines() if re.search(r"panicked|assertion|test result|running \d+ test|^test |abnormal|error(:|\[)", l))[-4000:] + "\n...\n" + r.stdout[-1500:]
 			failed = bool(re.search(r"test result: FAILED|panicked at|\bFAILED\b|test exited abnormally|SIGABRT|SIGSEGV|memory allocation of \d+ bytes failed|stack overflow", r.stdout)) and "could not compile" not in r.stdout
 			passed = bool(re.search(r"test result: ok. [1-9]", r.stdout))
 			out.append(f"--- {profile}: {'REPRODUCED' if failed else ('passes' if passed else 'no result')}\n{tail}\n")
 			if failed:
 				reproduced = True
-		_write(rpath + ".native.log", "\n".join(out))
-		return reproduced, rpath, "native playback (dev profile: overflow checks on)"
+		_write(native_log, "\n".join(out))
+		return reproduced, "native playback (dev profile: overflow checks on)"
 	except Exception as e:  # noqa
-		return None, rpath, f"playback error: {e}"
+		return None, f"playback error: {e}"
 	finally:
 		shutil.rmtree(rws, ignore_errors=True)
 
